@@ -141,6 +141,9 @@ func driveC14(args []string) error {
 		atoms = append(atoms, func() opt { return mkAt(i, cols[rng.Intn(len(cols))]) })
 	}
 	atoms = append(atoms, func() opt { return mkPal(&fullA) }, func() opt { return mkPal(&fullB) })
+	// a full replacement that happens to equal the default palette: it still discards everything before it
+	fullBlack := defaultPal()
+	atoms = append(atoms, func() opt { return mkPal(&fullBlack) })
 
 	var shared *tracedRenderer
 	sharedUses := 0
